@@ -21,7 +21,10 @@ def comment_text(r):
     return "#" + r.choice(["", " c", " if then else end", " 'quote", " \"dq", " // pat", " do <<", "#", " é", " x = 1;", "\t",
                            " a; nosuch_name(", "; error 'from comment';", " ) ] end", " \\", " tab\tinside",
                            " was: \x0c nosuch_a(", " vt \x0b error 'vt';", " fs \x1c; nosuch_b", " nel \x85 nosuch_c(1)", " ls \u2028 error 'ls'",
-                           " ps \u2029 ) end"])
+                           " ps \u2029 ) end",
+                           # a comment begins at # whatever comes next: brackets, operators, another comment sign
+                           "[1] second element", "[was: a[0]]", "[", "]#", "(", "{x}", "<<", "<*", "!", "*x*", "-", "/* x */", "|", "--[[ x ]]", "= x", "#[ x ]#",
+                           "!/usr/bin/ckl", "\"", "'", "//", "\\"])
 
 
 def separator(r, mode, a, b):
